@@ -137,10 +137,19 @@ def check(ctx: Ctx) -> None:
         # the positive quantity is value - current duration
         if ok:
             nz = Normaliser()
-            nz.run_block([s for s in _block_of(g) if s.lineno < g.lineno])
+            # definitions in force: simple assignments of every enclosing block that precede the test (outermost first)
+            chain_ = [a for a in ancestors(g) if isinstance(a, (ast.For, ast.While, ast.If, ast.FunctionDef))]
+            pre_ = []
+            node_ = g
+            for a in [g] + chain_:
+                blk_ = _block_of(a)
+                pre_ = [s for s in blk_ if isinstance(s, (ast.Assign, ast.AugAssign)) and s.lineno < a.lineno] + pre_
+            nz.run_block(pre_)
             q = nz.norm(pos[0].left)
             arg = nz.norm(c.args[0]) if c.args else None
-            ok = arg is not None and (q - arg).atoms() and all(".time" in a or a == "current_duration" for a in (q - arg).atoms())
+            d = (q - arg) if arg is not None else None
+            # value - (end - onset): two time atoms with coefficients +1 (onset) and -1 (end)
+            ok = d is not None and len(d.terms) == 2 and sorted(d.terms.values()) == [-1, 1] and all(".time" in a for a in d.atoms())
         ctx.check(ok, "NOEXT", f"{FN}: with `{flag}` every value longer than the current duration is removed", function=FN,
                   construct=f"{flag} filter does not remove exactly the values with a positive correction",
                   message=f"`{short(g.test, 90)}`", file=fi.file, node=g)
